@@ -15,6 +15,11 @@ CLAIMED = {
  "C08": ("world+query", "Coq proofs: access/prepare/sat agreement and item correctness for every query shape "
                         "(induction over the query AST), iteration/batched/view/query_one theorems under the world "
                         "invariant; differential check of 110 generated query types on every access path"),
+ "C16": ("world", "Coq proofs: allocator theorems over all histories (c16_reserved_uniform, c16_must_flush) and world-level "
+                  "refinement (a reserved handle denotes the empty entity; contains/entity/get/query_one/satisfies are "
+                  "functions of that denotation; iteration and views see only entities with a row; flush and structural "
+                  "operations preserve every denotation); differential check with a reservation-heavy script profile "
+                  "probing every accessor before each structural operation"),
  "C17": ("world+query", "Coq proofs: archetype lists only grow (c17_grows), generation theorem, and an invariant over "
                         "multi-world histories for one prepared query (c17_fresh); differential check with prepared "
                         "queries shared between two worlds"),
@@ -27,7 +32,7 @@ ENGINES = [
  {"name": "sched", "path": "coq/Model/Atomic.v, coq/Model/ReserveRun.v, harness/src/sched.rs", "serves_properties": ["C06", "C07"],
   "kind_free_text": "atomic-step interleaving models; cooperative scheduling of the real code through cfg(hecs_verif) yield hooks; real-thread stress"},
  {"name": "world", "path": "coq/Model/{Types,Entities,World,WorldRun}.v, harness/src/world_engine.rs, tools/gens.py",
-  "serves_properties": ["C02", "C08", "C17"],
+  "serves_properties": ["C02", "C08", "C16", "C17"],
   "kind_free_text": "executable model of Entities/Archetype/World; scripts of world operations over two worlds; shadow-map, issued-handle and drop-ledger oracles"},
  {"name": "world+query", "path": "coq/Model/Query.v, harness/src/query_engine.rs, harness/src/gen_queries.rs",
   "serves_properties": ["C08", "C17"],
